@@ -4,7 +4,7 @@
    Properties_C19.v are about the repaired tree. *)
 From Coq Require Import ZArith List Bool String.
 From VV Require Import Base.F64 Mep.Genome Lang.LangBase Gen.Templates Lang.LangDefs
-  Lang.SynDefs Lang.Witness.
+  Lang.SynDefs Lang.ReadProofs Lang.Witness.
 Import ListNotations.
 Local Open Scope Z_scope.
 
@@ -59,3 +59,14 @@ Theorem C19_render_placeholder_terminal_refuted :
   inst (segs_of tmpl_add) [bz "%%2%%"; bz "Y"] = bz "(%%2%%+Y)".
 Proof. vm_compute. split; reflexivity. Qed.
 Print Assumptions C19_render_placeholder_terminal_refuted.
+
+(* the strip test of language() is naive: on a text of the shape (a)+(b) --
+   which no shipped template or terminal produces (theorem 6), but a symbol
+   NAMED so does -- it removes two parentheses that do not match *)
+Theorem C19_naive_strip_refuted :
+  let txt := bz "(a)+(b)" in
+  strips txt = true /\ strip_outer txt = bz "a)+(b" /\
+  read FC txt = Some (EBin (p1 43) (EParen (EAtom (bz "a"))) (EParen (EAtom (bz "b")))) /\
+  read FC (strip_outer txt) = None.
+Proof. vm_compute. repeat split; reflexivity. Qed.
+Print Assumptions C19_naive_strip_refuted.
